@@ -243,6 +243,12 @@ def _str_table(alloc, off, n):
     """alloc holds either the array of fat pointers itself, or a (ptr,len) to that array"""
     raw = bytes.fromhex(alloc["bytes"])
     ptr_offsets = sorted(p["off"] for p in alloc.get("ptrs", []))
+    # a single fat pointer whose target itself holds pointers is a `&[&str]`, not a `[&str; 1]`
+    if len(ptr_offsets) == 1 and ptr_offsets[0] == off and n is None:
+        tgt = _ptr_target(alloc, off)
+        if tgt and tgt.get("kind") == "memory" and tgt.get("ptrs"):
+            cnt = struct.unpack_from("<Q", raw, off + 8)[0] if len(raw) >= off + 16 else None
+            return _str_table(tgt, 0, cnt)
     # case A: this alloc *is* the array of (ptr,len) pairs
     if ptr_offsets and all((o - off) % 16 == 0 for o in ptr_offsets) and (n is None or len(ptr_offsets) == n):
         out = []
